@@ -178,6 +178,10 @@ def strat_tasks(tier):
     case['task_form'] = draw(st.sampled_from(['lazy', 'lazy', 'task', 'blocking']))
     if case['task_form'] == 'blocking':
       case['answer_at'] = 'later'      # a blocking submission waits for the answer itself: nobody polls the worker meanwhile
+      # ... so a call that is never answered would wait forever; a real transport ends the pending calls of a dead server with
+      # an error or the call deadline, which is what the plan gives a blocking submission instead of a silent death
+      case['plan'] = {w: {m: ['deadline_before' if a in ('die', 'die_graceful', 'restart') else a for a in acts] for m, acts in ms.items()}
+                      for w, ms in case['plan'].items()}
     return case
   return s()
 
